@@ -1489,6 +1489,12 @@ def r23_adjacency_kernel(ctx, rule):
         ctx.ok(rule, q, 'accepted offsets %s: symmetric, irreflexive, within one row and one column' % sorted(acc), facts)
 
 
+def r24_optional_results(ctx, rule):
+    from .common import optional_results_checked
+    optional_results_checked(ctx, rule, [DET, 'lib_trainer/pcfg_password_parser.py'], 1, 'parsing never raises: a detector that '
+                             'meets None where it expects a container aborts the whole training run on the first such password')
+
+
 def rules(tier):
     return [('C05.R1', r1_splice_discipline), ('C05.R2', r2_slice_tiling), ('C05.R4', r4_multiword_parts),
             ('C05.R5', r5_totality), ('C05.R6', r6_counter_pairing), ('C05.R7', r7_index_space), ('C05.R8', r8_constants),
@@ -1509,7 +1515,9 @@ def rules(tier):
             # mutation sweep (third run): the year kernel
             ('C05.R22', r22_year_kernel),
             # C05-fb: 'one row up' folded into 'one row down' under abs()
-            ('C05.R23', r23_adjacency_kernel)]
+            ('C05.R23', r23_adjacency_kernel),
+            # C05-fa: find_keyboard_row_column returns None for blanks; one of three uses in the caller is guarded
+            ('C05.R24', r24_optional_results)]
 
 
 META = {
